@@ -29,7 +29,8 @@ HIST_BUILDERS = [0, 1, 2, 3, 4, 5]
 MARKERS = [0, 4, 5, 6]
 
 
-def make_case(R1, R, corpus, kind: str, mode: str, case_seed: int, max_ops: int, corpus_name: str | None = None) -> dict:
+def make_case(R1, R, corpus, kind: str, mode: str, case_seed: int, max_ops: int, corpus_name: str | None = None,
+              option_index: int | None = None) -> dict:
     rng = random.Random(case_seed)
     reaction = corpus[corpus_name] if kind == "corpus" else R1.synthetic_reaction(rng, max_transitions=10)
     tb = R1.Tables(reaction)
@@ -42,12 +43,17 @@ def make_case(R1, R, corpus, kind: str, mode: str, case_seed: int, max_ops: int,
         ops = R.random_ops(rng, reaction, tb, rng.randint(1, max_ops), ids, allow_bad=(mode not in {"oracle", "oracle2"}))
     if mode in {"form2", "oracle2"}:  # assign -> formulate -> re-assign -> formulate on one builder
         pre = R.random_ops(rng, reaction, tb, rng.randint(1, max(1, max_ops // 2)), ids, allow_bad=False)
-    return {"kind": kind, "mode": mode, "case_seed": case_seed, "corpus": corpus_name, "reaction": reaction, "tb": tb, "ops": ops, "pre": pre}
+    cfg = None
+    if mode != "hist":  # public builder options are a dimension of EVERY formulated-model / oracle case
+        cfg = R.option_cfg(random.Random(case_seed ^ 0x5EED), reaction, option_index if option_index is not None else case_seed)
+    return {"kind": kind, "mode": mode, "case_seed": case_seed, "corpus": corpus_name, "reaction": reaction, "tb": tb, "ops": ops,
+            "pre": pre, "cfg": cfg, "option_index": option_index}
 
 
 def case_id(R, c: dict) -> dict:
     return {"kind": c["kind"], "mode": c["mode"], "case_seed": c["case_seed"], "corpus": c["corpus"], "ops": R.describe_ops(c["ops"]),
-            "pre_ops": R.describe_ops(c["pre"]) if c.get("pre") else None}
+            "pre_ops": R.describe_ops(c["pre"]) if c.get("pre") else None, "config": R.describe_cfg(c.get("cfg")),
+            "option_index": c.get("option_index")}
 
 
 def infer_covers(R1, R, corpus, chk) -> tuple[bool, list[dict]]:
@@ -126,9 +132,14 @@ class C13Property:
             plan.append(("synthetic", ("form2", "all_parents", "reassign")[k % 3], rng.getrandbits(48), None))
         cases = []
         rejected = 0
+        opt_counter: dict = {}
         for kind, mode, cs, name in plan:
+            # option index: cycles use_helicity_couplings x {no alignment, axis-angle} per (kind, mode, reaction)
+            okey = (kind, mode, name)
+            oi = opt_counter.get(okey, len(opt_counter) if kind == "corpus" else 0)
+            opt_counter[okey] = oi + 1
             try:
-                cases.append(make_case(R1, R, corpus, kind, mode, cs, n["max_ops"], name))
+                cases.append(make_case(R1, R, corpus, kind, mode, cs, n["max_ops"], name, option_index=oi))
             except Exception:  # noqa: BLE001
                 rejected += 1
         chk.info("generator_rejections", rejected)
@@ -140,10 +151,10 @@ class C13Property:
             elif c["mode"] == "form2":
                 # two requests joined by a tab marker are not possible on one line: the first formulate is request k,
                 # the second (all operations so far) is sent as a separate line right after it
-                lines.append(R.form_line(covers, c["reaction"], c["tb"], c["pre"]))
+                lines.append(R.form_line(covers, c["reaction"], c["tb"], c["pre"], c["cfg"]))
             else:
-                lines.append(R.form_line(covers, c["reaction"], c["tb"], c["ops"]))
-        second = {i: R.form_line(covers, c["reaction"], c["tb"], [*c["pre"], *c["ops"]]) for i, c in enumerate(cases) if c["mode"] == "form2"}
+                lines.append(R.form_line(covers, c["reaction"], c["tb"], c["ops"], c["cfg"]))
+        second = {i: R.form_line(covers, c["reaction"], c["tb"], [*c["pre"], *c["ops"]], c["cfg"]) for i, c in enumerate(cases) if c["mode"] == "form2"}
         second_idx = sorted(second)
         lines_all = lines + [second[i] for i in second_idx]
         lean_out: list[str] = []
@@ -163,7 +174,8 @@ class C13Property:
             chk.broken_correspondence("lean driver", f"{len(lean_out)} replies for {len(cases)} requests")
             lean_out = []
 
-        dist = {"mode": {}, "kind": {}, "op_kinds": {}, "n_ops": {}, "form_outcome": {}, "identical_final": 0,
+        dist = {"mode": {}, "kind": {}, "op_kinds": {}, "n_ops": {}, "form_outcome": {}, "options": {}, "skeletons_compared": 0,
+                "skeletons_with_dynamics_factor": 0, "inexpr_compared": 0, "identical_final": 0,
                 "multi_topology": 0, "selector_steps_compared": 0, "builder_calls_compared": 0, "defaults_compared": 0}
         mism = 0
         for idx, c in enumerate(cases):
@@ -182,23 +194,31 @@ class C13Property:
                     dist["selector_steps_compared"] += len(real)
                     nontrivial = len(ops) >= 2 and d["n_transitions"] >= 2
                 elif c["mode"] == "form2":
-                    both = R.real_form2(r, tb, c["pre"], ops)
+                    with R1.time_limit(CASE_CAP):
+                        both = R.real_form2(r, tb, c["pre"], ops, c["cfg"])
                     real, real_second = both[0], both[1]
                     dist["second_formulate_compared"] = dist.get("second_formulate_compared", 0) + 1
                     nontrivial = bool(real_second.get("calls"))
                     if lean_out and idx in second_out:
                         lean2 = R.parse_form(second_out[idx])
-                        if lean2 != real_second:
+                        if not R.form_agree(real_second, lean2):
                             mism += 1
                             if mism <= 3:
                                 chk.broken_correspondence("second formulate() on one builder after re-assignment vs model of all operations",
                                                           {"case": case_id(R, c), "reaction": d, "diff": short_diff(real_second, lean2)})
                 else:
-                    real, _ = R.real_form(r, tb, ops)
+                    with R1.time_limit(CASE_CAP):
+                        real, _ = R.real_form(r, tb, ops, c["cfg"])
                     dist["form_outcome"][real.get("error", "ok")] = dist["form_outcome"].get(real.get("error", "ok"), 0) + 1
                     dist["builder_calls_compared"] += sum(real.get("calls", {}).values())
                     dist["defaults_compared"] += len(real.get("defaults", {}))
                     nontrivial = bool(real.get("calls"))
+                if c["mode"] != "hist":
+                    tally_options(dist, c["cfg"], real if isinstance(real, dict) else {})
+            except R1.CaseTimeout:
+                real, nontrivial = {"error": "Timeout"}, False
+                chk.broken_correspondence("formulate() under a builder configuration exceeded the per-case cap",
+                                          {"case": case_id(R, c), "reaction": d, "cap_seconds": CASE_CAP})
             except Exception as e:  # noqa: BLE001
                 real, nontrivial = {"error": "Other:" + type(e).__name__ + ":" + str(e)[:200]}, False
             chk.count((lines[idx],) if nontrivial else None)
@@ -207,7 +227,7 @@ class C13Property:
                             "real": (real[-1][:300] if isinstance(real, list) else {k: (len(v) if isinstance(v, dict) else v) for k, v in real.items()})})
             if lean_out:
                 lean = R.parse_hist(lean_out[idx]) if c["mode"] == "hist" else R.parse_form(lean_out[idx])
-                if lean != real:
+                if (lean != real) if c["mode"] == "hist" else not R.form_agree(real, lean):
                     mism += 1
                     if mism <= 3:
                         chk.broken_correspondence("selector / formulation model vs real code",
@@ -219,20 +239,23 @@ class C13Property:
         n_or = n["oracle_synthetic"] * (4 if chk.broken else 1)
         oracle_plan = [("corpus", orng.getrandbits(48), name) for name in corpus] + [("synthetic", orng.getrandbits(48), None) for _ in range(n_or)]
         oracle_runs = 0
-        for kind, cs, name in oracle_plan:
+        for o_idx, (kind, cs, name) in enumerate(oracle_plan):
             try:
-                c = make_case(R1, R, corpus, kind, "oracle2" if cs % 2 else "oracle", cs, n["max_ops"], name)
+                c = make_case(R1, R, corpus, kind, "oracle2" if cs % 2 else "oracle", cs, n["max_ops"], name, option_index=o_idx + seed)
             except Exception:  # noqa: BLE001
                 continue
             try:
                 with R1.time_limit(120):
-                    bad = R.oracle_ratio(c["reaction"], c["tb"], c["ops"], pre_ops=c.get("pre"))
-                    bad += R.oracle_defaults(c["reaction"]) if kind == "corpus" or oracle_runs % 5 == 0 else []
+                    bad = R.oracle_ratio(c["reaction"], c["tb"], c["ops"], pre_ops=c.get("pre"), cfg=c["cfg"])
+                    bad += R.oracle_defaults(c["reaction"], c["cfg"], c["tb"]) if kind == "corpus" or oracle_runs % 5 == 0 else []
             except R1.CaseTimeout:
                 continue
             except R1.ERRS:
                 continue  # builder refused the configuration (e.g. missing L): not a C13 statement
             oracle_runs += 1
+            ocfg = c["cfg"]
+            okey = f"oracle hc={int(ocfg['hc'])} align={ocfg['align']} {'canonical' if c['reaction'].formalism.startswith('canonical') else 'helicity'}"
+            dist["options"][okey] = dist["options"].get(okey, 0) + 1
             chk.count(("oracle", cs) if len(c["ops"]) >= 1 else None)
             for f in bad:
                 failures.append({"input": case_id(R, c), "reaction": R1.describe(c["reaction"]), "failure": f,
@@ -271,7 +294,36 @@ class C13Property:
         return chk.finish()
 
 
+CASE_CAP = 90  # seconds per formulated-model case (a stuck case = broken correspondence)
+
+
+def tally_options(dist: dict, cfg: dict, real: dict) -> None:
+    key = f"form hc={int(cfg['hc'])} align={cfg['align']} naming={int(cfg['parent'])}{int(cfg['child'])}{int(cfg['ls'])}"
+    dist["options"][key] = dist["options"].get(key, 0) + 1
+    if cfg["stable"] is not None:
+        dist["options"]["stable_final_state_ids set"] = dist["options"].get("stable_final_state_ids set", 0) + 1
+    if cfg["scalar"]:
+        dist["options"]["scalar_initial_state_mass"] = dist["options"].get("scalar_initial_state_mass", 0) + 1
+    sk = real.get("skel") or {}
+    dist["skeletons_compared"] += len(sk)
+    dist["skeletons_with_dynamics_factor"] += sum(1 for _n, s in sk.values() if not s.endswith("|-"))
+    dist["inexpr_compared"] += int("inexpr" in real)
+
+
 def short_diff(real, lean):
+    if isinstance(real, dict) and isinstance(lean, dict) and "skel" in real and "skel" in lean:
+        rest_r = {k: v for k, v in real.items() if k not in {"skel", "inexpr"}}
+        rest_l = {k: v for k, v in lean.items() if k not in {"skel", "inexpr"}}
+        if rest_r == rest_l:
+            out = {"inexpr_real": real.get("inexpr"), "inexpr_model": lean.get("inexpr")} if real.get("inexpr", lean.get("inexpr")) != lean.get("inexpr") else {}
+            for key, (name, sk) in real["skel"].items():
+                if lean["skel"].get(key) != sk:
+                    fields = ("coefficient", "couplings", "wigner angles", "dynamics factors")
+                    ra, la = sk.split("|"), str(lean["skel"].get(key)).split("|")
+                    out["amplitude skeleton"] = {"chain": key, "component": name[:160], "differs_in": {
+                        f: {"real": a[:300], "model": b[:300]} for f, a, b in zip(fields, ra, la) if a != b}}
+                    break
+            return out
     if isinstance(real, list) and isinstance(lean, list):
         for i, (a, b) in enumerate(zip(real, lean)):
             if a != b:
@@ -321,30 +373,38 @@ def replay(rep: dict) -> int:
     corpus = R.load_corpus()
     c = None
     for tier in ("quick", "thorough"):
-        c = make_case(R1, R, corpus, inp["kind"], inp["mode"], inp["case_seed"], N_CASES[tier]["max_ops"], inp.get("corpus"))
+        c = make_case(R1, R, corpus, inp["kind"], inp["mode"], inp["case_seed"], N_CASES[tier]["max_ops"], inp.get("corpus"),
+                      option_index=inp.get("option_index"))
         if R.describe_ops(c["ops"]) == [list(o) for o in inp.get("ops", R.describe_ops(c["ops"]))]:
             break
     covers = (rep.get("inferred_variant") or {}).get("selCoversComb", True)
     out = {"ops": R.describe_ops(c["ops"]), "reaction": R1.describe(c["reaction"])}
     code = 0
     if inp["mode"] in {"oracle", "oracle2"}:
-        bad = R.oracle_ratio(c["reaction"], c["tb"], c["ops"], pre_ops=c.get("pre")) + R.oracle_defaults(c["reaction"])
+        bad = R.oracle_ratio(c["reaction"], c["tb"], c["ops"], pre_ops=c.get("pre"), cfg=c["cfg"]) + R.oracle_defaults(c["reaction"], c["cfg"], c["tb"])
         out["oracle_failures"] = bad[:4]
         code = 1 if bad else 0
     else:
-        line = (R.hist_line if inp["mode"] == "hist" else R.form_line)(covers, c["reaction"], c["tb"], c["ops"])
+        line = (R.hist_line(covers, c["reaction"], c["tb"], c["ops"]) if inp["mode"] == "hist"
+                else R.form_line(covers, c["reaction"], c["tb"], c["ops"], c["cfg"]))
         reply = common.lean_run(DRIVER, line + "\n").strip().split("\n")[0]
         if inp["mode"] == "hist":
             real, lean = R.real_hist(c["reaction"], c["tb"], c["ops"]), R.parse_hist(reply)
         elif inp["mode"] == "form2":
-            real = R.real_form2(c["reaction"], c["tb"], c["pre"], c["ops"])
-            l1 = common.lean_run(DRIVER, R.form_line(covers, c["reaction"], c["tb"], c["pre"]) + "\n").strip().split("\n")[0]
-            l2 = common.lean_run(DRIVER, R.form_line(covers, c["reaction"], c["tb"], [*c["pre"], *c["ops"]]) + "\n").strip().split("\n")[0]
+            real = R.real_form2(c["reaction"], c["tb"], c["pre"], c["ops"], c["cfg"])
+            l1 = common.lean_run(DRIVER, R.form_line(covers, c["reaction"], c["tb"], c["pre"], c["cfg"]) + "\n").strip().split("\n")[0]
+            l2 = common.lean_run(DRIVER, R.form_line(covers, c["reaction"], c["tb"], [*c["pre"], *c["ops"]], c["cfg"]) + "\n").strip().split("\n")[0]
             lean = [R.parse_form(l1), R.parse_form(l2)]
         else:
-            real, lean = R.real_form(c["reaction"], c["tb"], c["ops"])[0], R.parse_form(reply)
-        out["model_vs_real"] = "agree" if real == lean else short_diff(real, lean)
-        code = 0 if real == lean else 1
+            real, lean = R.real_form(c["reaction"], c["tb"], c["ops"], c["cfg"])[0], R.parse_form(reply)
+        if inp["mode"] == "hist":
+            agree = real == lean
+        elif inp["mode"] == "form2":
+            agree = all(R.form_agree(a, b) for a, b in zip(real, lean))
+        else:
+            agree = R.form_agree(real, lean)
+        out["model_vs_real"] = "agree" if agree else (short_diff(real, lean) if not isinstance(real, list) or inp["mode"] == "hist" else [short_diff(a, b) for a, b in zip(real, lean)])
+        code = 0 if agree else 1
     print("replayed:", json.dumps(out, indent=1, default=str))
     return code
 
@@ -352,7 +412,7 @@ def replay(rep: dict) -> int:
 PROP = C13Property()
 
 MANIFEST = {
-    "technique": "Lean 4 theorems about an executable model of DynamicsSelector / __formulate_dynamics / default collection; T2 correspondence on assignment histories (choice map after every operation), on formulated models with recording builders (incl. a builder on every decaying particle, re-assignment of one decay after a by-name assignment, assign -> formulate -> re-assign -> formulate on ONE builder); independent ratio oracle on the real code (first and second model of a builder)",
+    "technique": "Lean 4 theorems about an executable model of DynamicsSelector / __formulate_dynamics / the chain amplitude as a product (both coefficient modes) / default collection; T2 correspondence on assignment histories (choice map after every operation), on formulated models with recording builders (incl. a builder on every decaying particle, re-assignment of one decay after a by-name assignment, assign -> formulate -> re-assign -> formulate on ONE builder) under varied public builder options (use_helicity_couplings x alignment x naming flags x stable ids x scalar initial mass): recorded calls, defaults, the amplitude skeleton of every chain component and the dynamics parameters occurring in model.expression; independent ratio oracle on the real code (first and second model of a builder) under the same option combinations",
     "design_ref": "DESIGN.md §3 C13",
     "text": (
         "Proof. C13_selector: for EVERY history of assignments (by name, particle, decay, (transition,node), unsupported selections; "
@@ -360,7 +420,11 @@ MANIFEST = {
         "denoting it, else create_non_dynamic; C13_selector_absent: foreign decays stay outside unless selected directly; C13_exact: "
         "with the selector covering the combinatorics chains (fix e918528) every node of every chain of every transition gets exactly "
         "the call builder(parent particle, this node's variable set) of that last operation (so a history changes exactly the chains "
-        "containing a denoted node), C13_unselected (factor 1); C13_L: invariant-mass symbol of the decaying edge, child masses in "
+        "containing a denoted node), C13_unselected (factor 1); C13_exact_amplitude / C13_amplitude_factors: for EVERY builder "
+        "configuration (use_helicity_couplings on or off, naming flags, alignment, stable ids, scalar initial mass) the dynamics "
+        "factors multiplied INTO a chain amplitude are node by node exactly those calls (none dropped, none added), "
+        "C13_mode_independent (the two coefficient modes differ in the C / H symbols only), C13_mode_shape (one C per chain vs one "
+        "H per node); C13_L: invariant-mass symbol of the decaying edge, child masses in "
         "helicity-child order, L = l_magnitude whenever present, integer-spin fallback otherwise; C13_defaults: last-writer-wins "
         "collection gives every dynamics parameter the value any writer wrote, mass/width = particle table tokens, under the explicit "
         "hypothesis that `latex or name` identifies the particle. Witness (decide): C13_witness_swapped_chain for the selector before "
@@ -369,7 +433,13 @@ MANIFEST = {
     "level_note": (
         "Trusted: Lean kernel; the harnesses tools/corr/C13_real.py + C01_real.py; the model is tied to the source by sampled "
         "correspondence (corpus of 10 qrules reactions incl. a four-body cascade and identical-particle reactions + synthetic reactions "
-        "x random histories per run), not by translation. Executed, not modelled: qrules combinatorics and hashing of TwoBodyDecay, "
+        "x random histories per run, each formulated model under a builder configuration cycling use_helicity_couplings x "
+        "{no alignment, axis-angle where the unfolded intensity is small} with random naming flags / stable ids / scalar mass), not "
+        "by translation. The amplitude skeleton read from model.components covers coefficient, couplings, Wigner-D angles and the "
+        "tagged dynamics factors; Clebsch-Gordan factors and the parity prefactor are C02/C03. Library builders are wrapped with a "
+        "tag factor Dyn_k(resonance, m, m1, m2, L) so that their expression can be located inside a chain amplitude. 'Parameter "
+        "occurs in model.expression' is demanded for chains whose amplitude symbol the intensity sums over (partial helicity sets "
+        "with identical particles leave some swapped chains unreferenced: C01). Executed, not modelled: qrules combinatorics and hashing of TwoBodyDecay, "
         "SymPy canonical forms in the ratio oracle. Parameter defaults other than those written by dynamics builders (coefficients, "
         "moved masses) are C01/C02 territory."
     ),
